@@ -68,7 +68,7 @@ def run(ctx):
     thorough = ctx.tier == "thorough"
     client_common.repo_override(ctx)
     ctx.translate()
-    res = ctx.coq_build(TARGETS)
+    res = ctx.coq_build(TARGETS + client_common.extraction_targets())
     ctx.coq_hygiene(TARGETS, res)
     ok_h = ctx.cargo_build(["client_store"])
     ok_o = ctx.ocaml_build()
